@@ -631,6 +631,10 @@ def call_arr_method(I, x, name, args, kwargs, node, fr):
     if isinstance(x, Num):
         if name in ("item", "copy", "squeeze", "sum", "mean", "max", "min", "astype"):
             return x
+        if name == "reshape":
+            shape = args[0] if len(args) == 1 and isinstance(args[0], (Tup, Lst)) else Tup(args)
+            items = shape.items if shape.items is not None else []
+            return Arr([ONE] * len(items), x.kind, x.space)
         return Top("Num." + name)
     if not isinstance(x, Arr):
         return Top("method of non-array")
@@ -798,8 +802,11 @@ def call_builtin(I, name, args, kwargs, node, fr):
         if isinstance(x, Lst):
             if name == "tuple" and x.items is not None:
                 return Tup(x.items)
-            if name in ("set", "frozenset", "sorted"):
-                return Lst(elem=x.element(), length=UNK if name != "sorted" else x.length)
+            if name in ("set", "frozenset"):
+                # the positions of a deduplicated collection form an index space of their own
+                return Lst(elem=x.element(), length=Ax(f"uniq{next(I.fresh_counter)}"))
+            if name == "sorted":
+                return Lst(elem=x.element(), length=x.length)
             return Lst(x.items[:] if x.items is not None else None, x.elem, x.length)
         if isinstance(x, Tup):
             return Lst(list(x.items)) if name != "tuple" else x
